@@ -143,6 +143,26 @@ pub fn run_c19(r: &Runner) {
 const CN: [&str; 11] = ["new", "peek", "peek_ahead", "peek_n", "peek_n_bytes", "advance", "advance_bytes", "set_cursor", "set_cursor_back_bytes", "as_ref", "next"];
 
 pub fn check_c20(r: &Runner, ctx: &mut Ctx, l: &mut Local, rec: &CaseRec) -> Result<(), Violation> {
+    if rec.sub == "cachegrind" {
+        // replay: recompute the scaling of this family
+        let (f, n) = (rec.aux[0] as usize, rec.aux[1] as usize);
+        let bin = match vdigest_for_c20(r, false) {
+            Some(b) => b,
+            None => return Ok(()),
+        };
+        let tag = format!("replay{}", std::process::id());
+        return match (family_cost(&bin, f, n, &tag), family_cost(&bin, f, 4 * n, &tag)) {
+            (Ok((c1, _)), Ok((c4, rec4))) => {
+                judge_scaling(f, n, c1, c4, &rec4)?;
+                r.account(l, rec, true, "cachegrind scaling");
+                Ok(())
+            }
+            (Err(e), _) | (_, Err(e)) => {
+                r.inconclusive.lock().unwrap().push(e);
+                Ok(())
+            }
+        };
+    }
     if BACKEND.load(std::sync::atomic::Ordering::Relaxed) != rec.backend {
         set_backend(rec.backend);
     }
@@ -195,7 +215,158 @@ pub fn check_c20(r: &Runner, ctx: &mut Ctx, l: &mut Local, rec: &CaseRec) -> Res
     Ok(())
 }
 
+// ---- instruction-count scaling under cachegrind (no hooks: sees work that bypasses the cursor) ----
+
+fn cachegrind_irefs(bin: &std::path::Path, corpus: &str, repeat: usize) -> Result<u64, String> {
+    let mut child = Command::new("valgrind")
+        .args(["--tool=cachegrind", "--cache-sim=no", "--cachegrind-out-file=/dev/null"])
+        .arg(bin)
+        .arg("--repeat")
+        .arg(repeat.to_string())
+        .arg(corpus)
+        .stdout(std::process::Stdio::null())
+        .stderr(std::process::Stdio::piped())
+        .spawn()
+        .map_err(|e| format!("cannot run valgrind: {}", e))?;
+    // time budget: a run that exceeds it is inconclusive, never a violation
+    let t0 = std::time::Instant::now();
+    loop {
+        match child.try_wait() {
+            Ok(Some(_)) => break,
+            Ok(None) => {
+                if t0.elapsed().as_secs() > 240 {
+                    let _ = child.kill();
+                    let _ = child.wait();
+                    return Err("valgrind run exceeded its 240 s budget".into());
+                }
+                std::thread::sleep(std::time::Duration::from_millis(20));
+            }
+            Err(e) => return Err(e.to_string()),
+        }
+    }
+    let out = child.wait_with_output().map_err(|e| e.to_string())?;
+    let err = String::from_utf8_lossy(&out.stderr);
+    for line in err.lines() {
+        if line.contains("I") && line.contains("refs:") {
+            let digits: String = line.split("refs:").nth(1).unwrap_or("").chars().filter(|c| c.is_ascii_digit()).collect();
+            if let Ok(v) = digits.parse::<u64>() {
+                return Ok(v);
+            }
+        }
+    }
+    Err(format!("no instruction count in valgrind output: {}", err.lines().last().unwrap_or("")))
+}
+
+/// per-parse-batch instruction cost of family f at `size`: I(repeat 3) - I(repeat 1)
+fn family_cost(bin: &std::path::Path, f: usize, size: usize, tag: &str) -> Result<(u64, CaseRec), String> {
+    let dir = format!("{}/target/c20", crate::verif_dir());
+    let _ = std::fs::create_dir_all(&dir);
+    let (entry, cfg, buf) = gen::family(f, size);
+    let rec = CaseRec::new("cachegrind", entry, cfg, size / 3 + 16, buf);
+    let path = format!("{}/fam{}_{}_{}.bin", dir, f, size, tag);
+    super::p_variants::write_corpus(&path, std::slice::from_ref(&rec));
+    let a = cachegrind_irefs(bin, &path, 1);
+    let b = cachegrind_irefs(bin, &path, 3);
+    let _ = std::fs::remove_file(&path);
+    let (a, b) = (a?, b?);
+    Ok((b.saturating_sub(a), rec))
+}
+
+const CG_FACTOR: u64 = 8; // cost(4N) <= 8 * cost(N) + slack; linear = 4, quadratic = 16
+const CG_SLACK: u64 = 60_000;
+
+fn judge_scaling(f: usize, n: usize, c1: u64, c4: u64, rec: &CaseRec) -> Result<(), Violation> {
+    if c4 > CG_FACTOR * c1 + CG_SLACK {
+        let mut rec = rec.clone();
+        rec.aux = vec![f as u64, n as u64];
+        return Err(Violation::new(
+            "C20/superlinear-instruction-count",
+            format!("family {} ({}): 6 parses of {} bytes cost {} instructions but 6 parses of {} bytes cost {} (x{:.1}; linear would be x4, the bound is x{})",
+                f, gen::family_name(f), n, c1, 4 * n, c4, c4 as f64 / c1.max(1) as f64, CG_FACTOR),
+            &rec,
+        ));
+    }
+    Ok(())
+}
+
+fn vdigest_for_c20(r: &Runner, simd_disabled: bool) -> Option<std::path::PathBuf> {
+    let v = super::p_variants::VARIANTS.iter().find(|v| v.name == if simd_disabled { "simd-disabled" } else { "runtime" }).unwrap();
+    match super::p_variants::build_variant(v) {
+        Ok(p) => Some(p),
+        Err((_, msg)) => {
+            r.inconclusive.lock().unwrap().push(format!("cannot build vdigest for the cachegrind phase: {}", msg));
+            None
+        }
+    }
+}
+
+fn cachegrind_phase(r: &Runner) {
+    let t0 = std::time::Instant::now();
+    if Command::new("valgrind").arg("--version").output().is_err() {
+        r.inconclusive.lock().unwrap().push("valgrind not available".into());
+        return;
+    }
+    let mut bins = vec![];
+    if let Some(b) = vdigest_for_c20(r, false) {
+        bins.push(("runtime", b));
+    }
+    if !r.quick() {
+        if let Some(b) = vdigest_for_c20(r, true) {
+            bins.push(("simd-disabled", b));
+        }
+    }
+    let sizes: &[usize] = if r.quick() { &[1024] } else { &[1024, 4096] };
+    let mut jobs = vec![];
+    for (bi, _) in bins.iter().enumerate() {
+        for f in 0..gen::N_FAMILIES {
+            for &n in sizes {
+                jobs.push((bi, f, n));
+            }
+        }
+    }
+    let next = std::sync::atomic::AtomicUsize::new(0);
+    let maxratio = std::sync::Mutex::new((0f64, 0usize));
+    std::thread::scope(|s| {
+        for _ in 0..r.threads.min(16) {
+            s.spawn(|| loop {
+                let i = next.fetch_add(1, std::sync::atomic::Ordering::Relaxed);
+                if i >= jobs.len() || r.stopped() {
+                    break;
+                }
+                let (bi, f, n) = jobs[i];
+                let tag = format!("{}", i);
+                let c1 = family_cost(&bins[bi].1, f, n, &tag);
+                let c4 = family_cost(&bins[bi].1, f, 4 * n, &tag);
+                match (c1, c4) {
+                    (Ok((c1, _)), Ok((c4, rec))) => {
+                        {
+                            let mut m = maxratio.lock().unwrap();
+                            let ratio = c4 as f64 / c1.max(1) as f64;
+                            if ratio > m.0 {
+                                *m = (ratio, f);
+                            }
+                        }
+                        if let Err(v) = judge_scaling(f, n, c1, c4, &rec) {
+                            r.report(v);
+                        }
+                    }
+                    (Err(e), _) | (_, Err(e)) => r.inconclusive.lock().unwrap().push(format!("cachegrind family {}: {}", f, e)),
+                }
+            });
+        }
+    });
+    let m = *maxratio.lock().unwrap();
+    r.stats.maxima.lock().unwrap().insert(format!("max cachegrind cost(4N)/cost(N) (family {})", m.1), m.0);
+    r.stats.evals.fetch_add(jobs.len() as u64 * 4, std::sync::atomic::Ordering::Relaxed);
+    r.stats.hist.lock().unwrap().insert("cachegrind scaling comparisons".into(), jobs.len() as u64);
+    r.phase_done(&format!("instruction-count scaling under valgrind --tool=cachegrind (production build of vdigest, no hooks): {} families × N in {:?} vs 4N × {} build(s); cost(4N) <= {}*cost(N)+{}", gen::N_FAMILIES, sizes, bins.len(), CG_FACTOR, CG_SLACK), jobs.len() as u64, true, t0);
+}
+
 pub fn run_c20(r: &Runner) {
+    cachegrind_phase(r);
+    if r.stopped() {
+        return;
+    }
     let backends = usable_backends();
     let sizes: &[usize] = if r.quick() { &[1 << 10, 1 << 12, 1 << 14, 1 << 16, 1 << 18, 1 << 20] } else { &[1 << 10, 1 << 11, 1 << 12, 1 << 13, 1 << 14, 1 << 15, 1 << 16, 1 << 17, 1 << 18, 1 << 19, 1 << 20] };
     let vars: u64 = if r.quick() { 4 } else { 12 };
